@@ -75,8 +75,11 @@ def eval_case(case) -> Outcome:
 
 
 def strategy(tier):
+    from .c09 import nested_site
+
     mx = 8 if tier == "quick" else 12
     return st.one_of(
+        nested_site(tier),
         G.problem(min_streams=3, max_streams=mx, shape="mixed"),
         G.problem(min_streams=2, max_streams=mx, shape="mixed", multi_zone=True),
         G.problem(max_streams=mx),
